@@ -369,7 +369,14 @@ where
             let (buffered_tx, buffered_rx) = crossbeam_channel::bounded(1);
 
             rayon::spawn(move || {
+                #[cfg(noodles_verif)]
+                crate::verif::call("inflate:start", &buffer.buf);
+
                 let result = parse_block(&buffer.buf, &mut buffer.block).map(|_| buffer);
+
+                #[cfg(noodles_verif)]
+                crate::verif::call("inflate:end", &[]);
+
                 let _ = buffered_tx.send(result);
             });
 
